@@ -7,6 +7,7 @@
    comparison of the compare functions is exclusive, or where a method table row / the dispatch order changed).
    IEEE arithmetic on two plain numbers is not the subject of any theorem (tested against Lean `Float` and Python). -/
 import JanetModel.Int64.Lemmas
+import JanetModel.Int64.LemmasQ
 namespace JanetModel.Props.C14
 open JanetModel.Int64 JanetModel.Gen.Int64
 
@@ -115,6 +116,10 @@ theorem compare_mixed_correct_of_inclusive (c : Cfg) (x : Int) (b : Nat) (hy : d
   ⟨fun hu hl hx => compareInt64Double_correct c hu hl x hx _ hy (decode_wf b),
    fun hu hx => compareUint64Double_partial c x hx _ hy (decode_wf b) (Or.inl hu)⟩
 
+/-- `cmpIntDbl` is the comparison in ℚ (so the theorems above and below read: "= cmp (x:ℚ) (y:ℚ)") -/
+theorem cmpIntDbl_eq_rat (n : Int) (neg : Bool) (m : Nat) (e : Int) :
+    cmpIntDbl n (.fin neg m e) = cmpQ (n : ℚ) (Dbl.toRat (.fin neg m e)) := cmpIntDbl_eq_cmpQ n neg m e
+
 /-- what holds on every tree (the pinned one included): exact for every double other than 2^63 (signed) / 2^64 (unsigned) -/
 theorem compare_mixed_partial (c : Cfg) (x : Int) (b : Nat) (hy : decode b ≠ .nan) :
     (c.cmpSLowerIncl = false → Kind.s64.inRange x → cmpIntDbl two63 (decode b) ≠ 0 →
@@ -166,6 +171,23 @@ theorem compare_mixed_correct (x : Int) (hx : Kind.s64.inRange x) (b : Nat) (hy 
 theorem compare_mixed_correct_unsigned (x : Int) (hx : Kind.u64.inRange x) (b : Nat) (hy : decode b ≠ .nan) :
     compareUint64Double cfgGen x (decode b) = .ok (cmpIntDbl x (decode b)) :=
   (compare_mixed_correct_of_inclusive cfgGen x b hy).2 (by decide) hx
+
+/-- ★ the property as stated: on the current source, for every int64 `x` and every double `y` (bit pattern `b`) that is
+    not a NaN, `compare_int64_double x y` is the three-way comparison of the *rational numbers* x and y (`Dbl.toRat`: the
+    IEEE-754 value (-1)^s * m * 2^e, see `decode_value`), +inf is above and -inf below every integer; likewise for every
+    uint64 and `compare_uint64_double`. -/
+theorem compare_mixed_correct_rat (x : Int) (b : Nat) :
+    (Kind.s64.inRange x →
+      (∀ neg m e, decode b = .fin neg m e → compareInt64Double cfgGen x (decode b) = .ok (cmpQ (x : ℚ) (decode b).toRat)) ∧
+      (∀ neg, decode b = .inf neg → compareInt64Double cfgGen x (decode b) = .ok (if neg then 1 else -1))) ∧
+    (Kind.u64.inRange x →
+      (∀ neg m e, decode b = .fin neg m e → compareUint64Double cfgGen x (decode b) = .ok (cmpQ (x : ℚ) (decode b).toRat)) ∧
+      (∀ neg, decode b = .inf neg → compareUint64Double cfgGen x (decode b) = .ok (if neg then 1 else -1))) := by
+  refine ⟨fun hx => ⟨fun neg m e h => ?_, fun neg h => ?_⟩, fun hx => ⟨fun neg m e h => ?_, fun neg h => ?_⟩⟩
+  · rw [compare_mixed_correct x hx b (by rw [h]; simp), h, cmpIntDbl_eq_cmpQ]
+  · rw [compare_mixed_correct x hx b (by rw [h]; simp), h]; rfl
+  · rw [compare_mixed_correct_unsigned x hx b (by rw [h]; simp), h, cmpIntDbl_eq_cmpQ]
+  · rw [compare_mixed_correct_unsigned x hx b (by rw [h]; simp), h]; rfl
 
 /-- the method tables of the current source: every binary operator has its reversed variant bound to the function with
     swapped operands (non-commutative operators) or to the same function (commutative ones); no reversed shift methods;
